@@ -6,6 +6,7 @@ import (
 	"strconv"
 	"strings"
 	"sync"
+	"time"
 
 	"verif/mc/chsim"
 )
@@ -216,6 +217,9 @@ type Database struct {
 	Name    string   `json:"name"`
 	Streams []Stream `json:"streams"`
 	Entries []Entry  `json:"entries"`
+	// DaysFromSamples: time_series rows carry the UTC day of the stream's samples (L8); otherwise every stream is
+	// registered on the day of T0
+	DaysFromSamples bool `json:"days_from_samples,omitempty"`
 
 	ch   *chsim.DB
 	once sync.Once
@@ -238,8 +242,23 @@ const sec = int64(1000000000)
 func (d *Database) build() {
 	db := chsim.NewDB()
 	var ts, samples [][]chsim.Value
-	for _, s := range d.Streams {
-		ts = append(ts, []chsim.Value{day, s.FP, chsim.LabelsJSON(s.Labels), "", s.Type})
+	if d.DaysFromSamples {
+		// the writer registers a series under the UTC day of its samples: one time_series row per (stream, UTC day)
+		seen := map[string]bool{}
+		for _, e := range d.Entries {
+			s := d.Streams[e.Stream]
+			dd := time.Unix(0, T0+e.TS).UTC().Format("2006-01-02")
+			k := fmt.Sprintf("%d|%s", e.Stream, dd)
+			if seen[k] {
+				continue
+			}
+			seen[k] = true
+			ts = append(ts, []chsim.Value{dd, s.FP, chsim.LabelsJSON(s.Labels), "", s.Type})
+		}
+	} else {
+		for _, s := range d.Streams {
+			ts = append(ts, []chsim.Value{day, s.FP, chsim.LabelsJSON(s.Labels), "", s.Type})
+		}
 	}
 	for _, e := range d.Entries {
 		s := d.Streams[e.Stream]
